@@ -854,11 +854,14 @@ def run_free(seed):
     n = rnd.randint(0, 4)
     A = [[rv() for _ in range(n)] for _ in range(n)]
     a = mat(A, nat)
-    w = matrix(0.0, (n, 1), "z")
+    ow = 0 if nat else rnd.choice([0, 1, 3])
+    wfull = matrix(complex(CAN, CAN), (ow + n + 1, 1), "z")
     Vb = mat([[0j] * n for _ in range(n)], True)
     o = obs("schur")
     def go():
-        lapack.gees(a.M, w, Vb.M, **({} if a.natural else {"n": n}), **a.kw("A"))
+        lapack.gees(a.M, wfull, Vb.M, **({} if a.natural else {"n": n, "offsetw": ow}), **a.kw("A"))
+        w = [wfull[ow + i] for i in range(n)]
+        o["outside_ok"] = all(wfull[i] == complex(CAN, CAN) for i in range(len(wfull)) if not ow <= i < ow + n)
         T, Zm = a.get(), Vb.get()
         o["recon_ok"] = la.close(la.mul(la.mul(Zm, T), la.ct(Zm)), A, 1e-9)
         o["orth_ok"] = orth(Zm)
@@ -871,7 +874,7 @@ def run_free(seed):
             # the eigenvalues reported are those of T: trace
             o["order_ok"] = o["order_ok"] and abs(sum(w) - sum(T[i][i] for i in range(n))) <= 1e-9 * (1 + abs(sum(w)))
     attempt(o, go)
-    o["outside_ok"] = a.outside_ok()
+    o["outside_ok"] = o["outside_ok"] and a.outside_ok()
     out.append(o)
     return out
 
